@@ -1,13 +1,15 @@
 """C18 -- zero-crossing search finds real crossings; splicing keeps audio and text in step."""
 
 import ast
+from fractions import Fraction
 
 from .. import specs
-from ..absint import (Interp, Lin, Lst, MockObj, PyFunc, PyRaise, Str, Tup, _Break, _Continue, label_var)
+from ..absint import (Interp, Lin, Lst, MockObj, PyFunc, PyRaise, State, Str, Tup, _Break, _Continue, label_var)
 from ..index import Undecided, norm
 from ..tables import (Atoms, Outcome, TableRun, build_tier, compare_outcomes, declare_tier, entry_equal, num_equal,
                       read_tier, run_code, run_spec, run_states, show, tier_equal)
 from . import common
+from ..tables import default_overrides
 from .tgops import build_tg, read_tg
 
 
@@ -27,100 +29,159 @@ def simple(rep, rule, fn, at, modes, code, spec, what, eq):
     tr.done(what)
 
 
+class _TooLong(Exception):
+    pass
+
+
 def loop_iteration_table(rep):
-    """One iteration of the search loop of findNearestZeroCrossing, with the directional searches mocked."""
+    """findNearestZeroCrossing interpreted as a whole (its loop, _iterZeroCrossings and utils.getInterval included)
+    with only the sample access abstracted: getSamples is a recorder and _findNextZeroCrossing answers according to
+    the row's mode (which search, in which round, finds a crossing).  Checked against the specification over every
+    abstract state the comparisons ask for: which windows are searched in which order, when the search stops, what
+    is returned, and that an exhausted search raises instead of returning.  Rounds beyond the second are not
+    followed (the row is then not decided further -- the first two rounds are)."""
     idx = common.ctx()
     fn = idx.get("AbstractWav.findNearestZeroCrossing")
-    whiles = [n for n in ast.walk(fn.node) if isinstance(n, ast.While)]
-    if len(whiles) != 1 or norm(whiles[0].test) != "True":
-        rep.vanished("Z-loop", fn.short, "while True")
-        return
-    loop = whiles[0]
-    pre = fn.node.body[: fn.node.body.index(loop)]
+    rep.functions.add(fn.qual)
+    for q in ("AbstractWav._iterZeroCrossings", "utilities.utils:getInterval", "utilities.utils:chooseClosestTime"):
+        if idx.try_get(q):
+            rep.functions.add(idx.get(q).qual)
+    wav_cls = idx.cls("Wav")
     at = Atoms()
-    L, R, dur = at.var("left"), at.var("right"), at.var("dur")
     at.const(0, "0")
+    target, dur = at.var("target"), at.var("dur")
+    at.rel("0", "<=", "target")
+    at.rel("target", "<=", "dur")
     at.rel("0", "<", "dur")
     T = Lin.var("T")
     at.fact_le(Lin.num(2), T)  # frame rate 1 in this harness: the step guard (timeStep * frameRate >= 2) has passed
-    osd = Lin.num(1)  # one sample at frame rate 1
-    at.derived_atom("right+T", R + T)
+    osd = Lin.num(1)           # one sample at frame rate 1
+    MAX_ROUNDS = 2
+    modes = [("none", 0), ("left", 1), ("right", 1), ("both", 1), ("left", 2), ("right", 2)]
+    tr = TableRun(rep, "Z-loop", fn.short, fn.loc)
+    tr.bounded_depth = True
 
-    def code(I, mode):
-        calls = []
+    def rows(st):
+        out = []
+        for mode in modes:
+            who, when = mode
+            log = []
+            rounds = {"n": 0}
 
-        def iterz(I_, start, within, step, reverse):
-            ok = I_.truth(I_.call_value(within, [start], {}))
-            calls.append((start, ok, step, reverse))
-            if not ok:
+            def get_samples(I_, a, b):
+                return Tup(["samples", a, b])
+
+            def find_next(I_, args, kwargs):
+                start_t, samples, rate, reverse = (list(args) + [kwargs.get(k) for k in ("startTime", "samples", "frameRate", "reverse")][len(args):])[:4]
+                if reverse is True:
+                    rounds["n"] += 0
+                log.append(("left" if reverse is True else "right", samples.items[1], samples.items[2]))
+                rnd = sum(1 for x in log if x[0] == ("left" if reverse is True else "right"))
+                if rnd > MAX_ROUNDS:
+                    raise _TooLong()
+                side = "left" if reverse is True else "right"
+                if who in (side, "both") and rnd >= when:
+                    return samples.items[1] if side == "right" else samples.items[2]  # a crossing at the near edge of the window
                 return None
-            if mode == "left" and reverse:
-                return Lin.var("foundL")
-            if mode == "right" and not reverse:
-                return Lin.var("foundR")
-            return None
-        selfv = MockObj({"_iterZeroCrossings": PyFunc(iterz), "duration": dur, "frameRate": Lin.num(1)})
-        env = {"__fn__": fn, fn.self_name: selfv, "timeStep": T, "targetTime": Lin.var("target")}
-        # everything before the loop (guards, hoisted locals, closures) runs first; then left/right become generic
-        for st_ in pre:
-            I.exec_stmt(st_, env)
-        env["leftStartTime"] = L
-        env["rightStartTime"] = R
-        env.setdefault("smallestLeft", None)
-        env.setdefault("smallestRight", None)
-        exit_ = "fallthrough"
+            ov = dict(default_overrides())
+            ov["audio._findNextZeroCrossing"] = find_next
+            I = Interp(idx, st, overrides=ov)
+            I.MAX_STEPS = 40000
+            try:
+                w = I.instantiate(wav_cls, [Lst([]), Lst([Lin.num(1), Lin.num(2), Lin.num(1), dur, "NONE", "x"])], {})
+                w.attrs["getSamples"] = PyFunc(get_samples)
+                w.attrs["duration"] = dur
+                try:
+                    got = ("return", I.call_value(I.getattr(w, "findNearestZeroCrossing"), [target, T], {}))
+                except PyRaise as e:
+                    got = ("raise", e.name)
+            except _TooLong:
+                got = ("toolong", None)
+            except Undecided as e:
+                if "step limit" in str(e):
+                    got = ("toolong", None)
+                else:
+                    out.append((mode, False, "", e if type(e).__name__ == "NeedSplit" else str(e)))
+                    continue
+            # ---- the specification, on the same comparisons
+            O = I  # Interp.sign raises NeedSplit like the oracle does
+
+            def lt(a, b):
+                return O.sign(O.num(a), O.num(b)) < 0
+            try:
+                left = right = target
+                exp_log, exp = [], None
+                seen_left = seen_right = 0
+                for rnd in range(1, MAX_ROUNDS + 2):
+                    foundL = foundR = None
+                    if lt(Lin.num(0), left):
+                        a = left - (T + osd)
+                        a = Lin.num(0) if lt(a, Lin.num(0)) else a
+                        exp_log.append(("left", a, left))
+                        seen_left += 1
+                        if who in ("left", "both") and seen_left >= when:
+                            foundL = left
+                    if lt(right + T, dur):
+                        b = right + T + osd
+                        b = dur if (not lt(right, Lin.num(0)) or True) and lt(dur, b) and not lt(right, Lin.num(0)) else b
+                        exp_log.append(("right", right, b))
+                        seen_right += 1
+                        if who in ("right", "both") and seen_right >= when:
+                            foundR = right
+                    if foundL is not None or foundR is not None:
+                        if foundL is None:
+                            exp = ("return", foundR)
+                        elif foundR is None:
+                            exp = ("return", foundL)
+                        else:
+                            dl, dr = target - foundL, foundR - target
+                            exp = ("return", foundL if not lt(dr, dl) else foundR)
+                        break
+                    if lt(left, Lin.num(0)) and lt(dur, right):
+                        exp = ("raise", None)
+                        break
+                    left, right = left - T, right + T
+                if exp is None:
+                    out.append((mode, True, "dontcare", None))
+                    continue
+            except Undecided as e:
+                out.append((mode, False, "", e if type(e).__name__ == "NeedSplit" else str(e)))
+                continue
+            problem = None
+            pe = set(idx.module("utilities.errors").classes)
+            if got[0] == "toolong":
+                problem = "the search goes on after round %d, where it has to %s: the loop's variant max(left, duration - right) no longer decreases, so the call may never return" % (
+                    len([x for x in exp_log if x[0] == "left"]) or 1, "raise FindZeroCrossingError (both sides have left the recording)" if exp[0] == "raise" else "return the crossing it found")
+            elif exp[0] == "raise":
+                if got[0] != "raise" or got[1] not in pe:
+                    problem = "an exhausted search %s; it must raise FindZeroCrossingError" % ("returns %r" % (got[1],) if got[0] == "return" else "raises %s" % got[1])
+            elif got[0] != "return":
+                problem = "raises %s although the %s search of round %d finds a crossing" % (got[1], who, when)
+            elif not (isinstance(got[1], Lin) and num_equal(I, got[1], exp[1])):
+                problem = "returns %r, expected %r (the found crossing closest to the target)" % (got[1], exp[1])
+            if problem is None and got[0] != "toolong":
+                if len(log) != len(exp_log) or any(g[0] != e_[0] or not num_equal(I, g[1], e_[1]) or not num_equal(I, g[2], e_[2]) for g, e_ in zip(log, exp_log)):
+                    problem = "searched windows %s, expected %s (left while its start is > 0, right while start + timeStep < duration; each window is timeStep + one sample long, clamped to the recording; both move out by timeStep per round)" % (
+                        [(s_, repr(a), repr(b)) for s_, a, b in log], [(s_, repr(a), repr(b)) for s_, a, b in exp_log])
+            out.append((mode, problem is None, problem or "", None))
+        return out
+
+    run_states(at, rows, tr)
+    tr.done("whole function x weak orders of (0, target, duration) refined on demand; a crossing found by the left/right/both searches in round 1-2, or never")
+    # the step guard: a step shorter than two samples is rejected
+    st0 = State([("0", Lin.num(0))], [0])
+    I = Interp(idx, st0, overrides=default_overrides())
+    try:
+        w = I.instantiate(wav_cls, [Lst([]), Lst([Lin.num(1), Lin.num(2), Lin.num(8), Lin.num(80), "NONE", "x"])], {})
+        w.attrs["getSamples"] = PyFunc(lambda I_, a, b: Tup(["samples", a, b]))
+        w.attrs["duration"] = Lin.num(10)
         try:
-            I.exec_block(loop.body, env)
-        except _Break:
-            exit_ = "break"
-        except _Continue:
-            exit_ = "fallthrough"
-        return {"exit": exit_, "left": env["leftStartTime"], "right": env["rightStartTime"], "calls": calls,
-                "sl": env["smallestLeft"], "sr": env["smallestRight"]}
-
-    def spec(O, mode):
-        lw = O.gt(L, Lin.num(0))  # the left search runs while its start is inside the recording
-        rw = O.lt(R + T, dur)
-        found = (mode == "left" and lw) or (mode == "right" and rw)
-        if found:
-            return {"exit": "break", "lw": lw, "rw": rw}
-        if O.lt(L, Lin.num(0)) and O.gt(R, dur):
-            O.raise_("ANY")  # 'it raises the documented errors (..., no crossing found)' 
-        return {"exit": "fallthrough", "left": L - T, "right": R + T, "lw": lw, "rw": rw}
-
-    def eq(I, g, w):
-        if g["exit"] != w["exit"]:
-            return "iteration exits by %s, expected %s" % (g["exit"], w["exit"])
-        c = g["calls"]
-        if len(c) != 2:
-            return "expected one left and one right search per iteration, got %d" % len(c)
-        (ls, lok, lstep, lrev), (rs, rok, rstep, rrev) = c
-        if lrev is not True or rrev is not False:
-            return "search directions are (%s, %s), expected (reverse, forward)" % (lrev, rrev)
-        if not (num_equal(I, ls, L) and num_equal(I, rs, R)):
-            return "searches start at (%r, %r), expected (left, right)" % (ls, rs)
-        if lok != w["lw"] or rok != w["rw"]:
-            return "threshold tests are (%s, %s), expected (left > 0: %s, right + timeStep < duration: %s)" % (lok, rok, w["lw"], w["rw"])
-        if not (num_equal(I, lstep, T + osd) and num_equal(I, rstep, T + osd)):
-            return "search windows are (%r, %r), expected timeStep + one sample" % (lstep, rstep)
-        if w["exit"] == "fallthrough":
-            if not (num_equal(I, g["left"], w["left"]) and num_equal(I, g["right"], w["right"])):
-                return "next iteration starts at (%r, %r), expected (left - timeStep, right + timeStep): the variant max(left, duration - right) must strictly decrease" % (g["left"], g["right"])
-        return None
-    simple(rep, "Z-loop", fn, at, ["none", "left", "right"], code, spec,
-           "one loop iteration x weak orders of (left, right, 0, duration), searches finding nothing / left / right", eq)
-    # the step guard dominates the loop
-    guards = [s for s in pre if isinstance(s, ast.If) and any(isinstance(n, ast.Raise) for n in ast.walk(s))]
-    ok = False
-    if guards:
-        t = guards[0].test
-        d = [s for s in pre if isinstance(s, ast.Assign) and norm(s.targets[0]) == norm(t.left)] if isinstance(t, ast.Compare) else []
-        ok = isinstance(t, ast.Compare) and isinstance(t.ops[0], ast.Lt) and norm(t.comparators[0]) == "2" and d and sorted(norm(d[0].value).replace(" ", "").split("*")) == ["self.frameRate", "timeStep"] and "ArgumentError" in norm(guards[0].body[0])
-    rep.check(ok, "Z-loop", fn.short, norm(guards[0].test) if guards else "step guard", ok="timeStep * frameRate < 2 raises ArgumentError before the loop, so timeStep > 0 inside it", bad="the 'step too small' guard no longer dominates the search loop")
-    after = fn.node.body[fn.node.body.index(loop) + 1:]
-    rets = [n for s in after for n in ast.walk(s) if isinstance(n, ast.Return)]
-    ok = len(rets) == 1 and norm(rets[0].value) == "utils.chooseClosestTime(targetTime, smallestLeft, smallestRight)"
-    rep.check(ok, "Z-loop", fn.short, norm(rets[0].value) if rets else "return", ok="the only normal exit returns the closer of the two found crossings", bad="the function can return something other than chooseClosestTime(target, left, right)")
+            I.call_value(I.getattr(w, "findNearestZeroCrossing"), [Lin.num(5), Lin.num(Fraction(1, 8))], {})
+            rep.refuted("Z-loop", fn.short, "timeStep of one sample", "a step shorter than two samples is accepted (the search cannot see a sign change)", loc=fn.loc)
+        except PyRaise as e:
+            rep.check(e.name in set(idx.module("utilities.errors").classes), "Z-loop", fn.short, "timeStep of one sample", ok="rejected with %s" % e.name, bad="raises %s, not a praatio error" % e.name)
+    except Undecided as e:
+        rep.undecided("Z-loop", fn.short, "timeStep of one sample", str(e))
 
 
 def helper_tables(rep):
@@ -169,62 +230,7 @@ def helper_tables(rep):
            "window of length dur before/after start against [0, max]",
            lambda I, g, w: None if num_equal(I, g.items[0], w[0]) and num_equal(I, g.items[1], w[1]) else "window %s, expected %s" % (show(g), show(Tup(list(w)))))
 
-    # _iterZeroCrossings: outside the threshold nothing is read; inside, the clamped window is read and searched
-    fn3 = idx.get("AbstractWav._iterZeroCrossings")
-    at = Atoms()
-    s, durr = at.var("start"), at.var("duration")
-    at.const(0, "0")
-    at.rel("0", "<", "duration")
-    step = Lin.var("step")
-    at.fact_lt(Lin.num(0), step)
-    at.derived_atom("start-step", s - step)
-    at.derived_atom("start+step", s + step)
-    wavcls = idx.cls("Wav")
-
-    def code3(I, mode):
-        reverse, within = mode
-        log = {}
-        w = I.instantiate(idx.cls("AudioGenerator"), [Lin.num(2), Lin.var("rate")], {})  # any object; we call the method unbound
-
-        def get_samples(I_, a_, b_):
-            log["window"] = (a_, b_)
-            return Tup([Lin.var("x1")])
-        sv = MockObj({"duration": durr, "frameRate": Lin.var("rate"), "getSamples": PyFunc(get_samples)})
-        ov = dict(I.overrides)
-        f = idx.get("audio:_findNextZeroCrossing")
-        ov[f.short] = lambda I_, a_, k_: Tup(["search", a_[0], a_[3]])
-        I.overrides = ov
-        r = I.call_function(fn3, [sv, s, PyFunc(lambda I_, x: within), step, reverse], {})
-        return {"result": r, "window": log.get("window")}
-
-    def spec3(O, mode):
-        reverse, within = mode
-        if not within:
-            return {"result": None, "window": None}
-        lo, hi = spec2_like(O, s, step, durr, reverse)
-        return {"result": ("search", lo, reverse), "window": (lo, hi)}
-
-    def spec2_like(O, s_, d_, mx_, rev):
-        lo, hi = (s_ - d_, s_) if rev else (s_, s_ + d_)
-        if O.lt(lo, Lin.num(0)):
-            lo = Lin.num(0)
-        elif O.gt(hi, mx_):
-            hi = mx_
-        return lo, hi
-
-    def eq3(I, g, w):
-        if (g["window"] is None) != (w["window"] is None):
-            return "samples read: %s, expected %s" % (g["window"] is not None, w["window"] is not None)
-        if w["window"] is None:
-            return None if g["result"] is None else "returns %r outside the threshold" % (g["result"],)
-        if not (num_equal(I, g["window"][0], w["window"][0]) and num_equal(I, g["window"][1], w["window"][1])):
-            return "reads window (%r, %r), expected (%r, %r)" % (g["window"] + w["window"])
-        r = g["result"]
-        if not (isinstance(r, Tup) and num_equal(I, r.items[1], w["result"][1]) and r.items[2] is w["result"][2]):
-            return "searches from %s, expected the window start with reverse=%s" % (show(r), w["result"][2])
-        return None
-    simple(rep, "Z-helpers", fn3, at, [(True, True), (False, True), (True, False), (False, False)], code3, spec3,
-           "search window of one step before/after start", eq3)
+    # (_iterZeroCrossings is a private helper whose signature is free to change; it is interpreted inline by the Z-loop table)
 
 
 def crossing_table(rep, n):
@@ -470,7 +476,7 @@ def run(rep, tier):
     rep.rule("S-shiftTimes / S-boundaries / S-splice", "text edits that accompany audio edits: _shiftTimes moves exactly the boundaries at the old time; tgBoundariesToZeroCrossings maps every timestamp through the search keeping order, counts and labels; audioSplice pairs audio.insert/deleteSegment with insertSpace/eraseRegion at the same times and inserts exactly one new interval")
     rep.not_decided.append("that the returned time falls on a sample position and lies in [0, duration] for every sample array (index arithmetic across window boundaries)")
     rep.not_decided.append("audioSplice with alignToZeroCrossing=True end to end (its parts -- the search loop, _shiftTimes -- are decided separately)")
-    from .c16 import rule_nearest, rule_seek
+    from . import audiobuf
     loop_iteration_table(rep)
     helper_tables(rep)
     for n in ([2, 3] if tier == "quick" else [2, 3, 4]):
@@ -482,5 +488,5 @@ def run(rep, tier):
         shift_times_table(rep, 2, 2)
     boundaries_table(rep)
     splice_table(rep, 1 if tier == "quick" else 2)
-    rule_nearest(rep)
-    rule_seek(rep)
+    rep.rule("F-file", "shared with C16: readFramesAtTime (behind QueryWav.getSamples) positions the file at round(frameRate * start) before the single read")
+    audiobuf.file_reads(rep)
